@@ -3,6 +3,7 @@ package parser
 import (
 	"encoding/xml"
 	"io"
+	"strings"
 
 	"github.com/ChrisTrenkamp/xsel/node"
 	"golang.org/x/net/html/charset"
@@ -83,6 +84,10 @@ var emptyXmlNamespaces = make([]XmlNamespace, 0)
 
 type xmlParser struct {
 	xmlReader  *xml.Decoder
+	depth      int
+	pending    xml.Token
+	pendingErr error
+	hasPending bool
 	namespaces []XmlNamespace
 	nsPos      int
 	attrs      []XmlAttribute
@@ -110,7 +115,7 @@ func (x *xmlParser) Pull() (node.Node, bool, error) {
 	x.nsPos = 0
 
 	for {
-		tok, err := x.xmlReader.Token()
+		tok, err := x.nextToken()
 
 		if err != nil {
 			return nil, false, err
@@ -118,6 +123,7 @@ func (x *xmlParser) Pull() (node.Node, bool, error) {
 
 		switch n := tok.(type) {
 		case xml.StartElement:
+			x.depth++
 			x.namespaces = createXmlNamespaces(n.Attr)
 			x.attrs = createXmlAttrs(n.Attr)
 			return XmlElement{
@@ -125,8 +131,15 @@ func (x *xmlParser) Pull() (node.Node, bool, error) {
 				local: n.Name.Local,
 			}, false, nil
 		case xml.CharData:
+			value := x.readCharData(string(n))
+
+			// White space between the markup outside of the document element is not part of the document.
+			if x.depth == 0 && strings.Trim(value, " \t\r\n") == "" {
+				continue
+			}
+
 			return XmlCharData{
-				value: (string)(n),
+				value: value,
 			}, false, nil
 		case xml.Comment:
 			return XmlComment{
@@ -143,10 +156,36 @@ func (x *xmlParser) Pull() (node.Node, bool, error) {
 				value:  string(n.Inst),
 			}, false, nil
 		case xml.EndElement:
+			x.depth--
 			return nil, true, nil
 		}
 
 		// Directives (e.g. the document type declaration) are not nodes.
+	}
+}
+
+func (x *xmlParser) nextToken() (xml.Token, error) {
+	if x.hasPending {
+		x.hasPending = false
+		return x.pending, x.pendingErr
+	}
+
+	return x.xmlReader.Token()
+}
+
+// readCharData appends the character data that immediately follows (CDATA
+// sections are separate tokens) so that it forms a single text node.
+func (x *xmlParser) readCharData(value string) string {
+	for {
+		tok, err := x.xmlReader.Token()
+
+		if next, ok := tok.(xml.CharData); ok && err == nil {
+			value += string(next)
+			continue
+		}
+
+		x.pending, x.pendingErr, x.hasPending = xml.CopyToken(tok), err, true
+		return value
 	}
 }
 
